@@ -14,6 +14,7 @@ Verdict clauses:
   A6  none of these functions raises
   A7  a literal containing a variable (an input object field given as $x) coerces, with x provided, like the literal with
       x's value in its place, and, with x absent, like the literal without that field
+  A8  inside a fragment that declares a variable $x without giving it a value, $x is absent even if the operation has an $x
 """
 from __future__ import annotations
 
@@ -189,7 +190,8 @@ def _chunk(seeds):
     from graphql.utilities import type_from_ast
     from graphql.language import parse_type
     from graphql.validation import ValuesOfCorrectTypeRule
-    from graphql.execution.values import get_variable_values
+    from graphql.execution.values import get_variable_values, get_fragment_variable_values
+    from graphql.execution.get_variable_signature import get_variable_signature
     out = []
     for sd in seeds:
         rnd = random.Random(sd)
@@ -299,6 +301,20 @@ def _chunk(seeds):
                                     if not same(c_given, c2):
                                         viol2.append(("A7-variable-in-literal-differs-from-its-value", {"literal": with_var[:100], "x": repr(v[fk])[:60],
                                                                                                         "with_variable": repr(c_given)[:80], "constant": repr(c2)[:80]}))
+                                # A8: a fragment variable of the same name that is declared but has no value (no argument in the
+                                # spread, no default) shadows the operation's variable: inside the fragment $x is absent
+                                if not isinstance(given, list) and v[fk] is not None:
+                                    fdoc = parse("query ($x: %s) { ...FV }  fragment FV($x: %s) on %s { __typename }" % (gs.tstr(vt), gs.tstr(vt), S["query"]),
+                                                 experimental_fragment_arguments=True)
+                                    fdef = fdoc.definitions[1]
+                                    sigs = {vd_.variable.name.value: get_variable_signature(schema, vd_) for vd_ in fdef.variable_definitions}
+                                    spread = fdoc.definitions[0].selection_set.selections[0]
+                                    fvals = get_fragment_variable_values(spread, sigs, given)
+                                    c_shadow = coerce_input_literal(vnode, gtype, given, fvals)
+                                    c_without0 = coerce_input_literal(parse_const_value(without), gtype)
+                                    if not same(c_shadow, c_without0):
+                                        viol2.append(("A8-shadowing-fragment-variable-without-value-is-not-absent", {"literal": with_var[:100], "field": fk,
+                                                      "with_shadowing_fragment_variable": repr(c_shadow)[:80], "field_omitted": repr(c_without0)[:80]}))
                                 missing = get_variable_values(schema, vdefs, {})
                                 if not isinstance(missing, list):
                                     c_missing = coerce_input_literal(vnode, gtype, missing)
